@@ -81,7 +81,7 @@ fn child_list<const SHAPE: u8>() {
     std::mem::forget(r); std::mem::forget(v);
 }
 macro_rules! ch_h { ($($n:ident: $k:expr;)*) => { $(#[kani::proof] #[kani::unwind(4)]
-    #[kani::stub(std::ptr::drop_in_place, no_drop)] #[kani::stub(core::ptr::drop_glue, no_glue)]
+    #[kani::stub(std::ptr::drop_in_place, no_drop)] #[kani::stub(core::ptr::drop_glue, no_glue)] #[kani::stub(std::vec::Vec::extend_from_slice, extend_from_slice_model)]
     #[kani::stub(crate::util::transform_text, tt_marker)] #[kani::stub(alloc::fmt::format, fmt_marker)]
     fn $n() { child_list::<$k>() })* } }
 ch_h! { children_none: 0; children_text: 1; children_expr: 2; children_empty_expr: 3; children_text_expr: 4; children_expr_empty: 5;
@@ -89,7 +89,7 @@ ch_h! { children_none: 0; children_text: 1; children_expr: 2; children_empty_exp
 
 /// nested slot flags (C13): an identifier child of an inner element marks every enclosing slot reached by direct nesting.
 #[kani::proof] #[kani::unwind(4)]
-#[kani::stub(std::ptr::drop_in_place, no_drop)] #[kani::stub(core::ptr::drop_glue, no_glue)]
+#[kani::stub(std::ptr::drop_in_place, no_drop)] #[kani::stub(core::ptr::drop_glue, no_glue)] #[kani::stub(std::vec::Vec::extend_from_slice, extend_from_slice_model)]
 #[kani::stub(crate::util::transform_text, tt_marker)] #[kani::stub(alloc::fmt::format, fmt_marker)]
 fn slot_flag_stack_fill() {
     let mut opts = any_options();
@@ -133,5 +133,5 @@ fn wrap<const SLOTS: u8>() {
     }
     std::mem::forget(r); std::mem::forget(v);
 }
-macro_rules! wr_h { ($($n:ident: $k:expr;)*) => { $(#[kani::proof] #[kani::unwind(4)] #[kani::stub(std::ptr::drop_in_place, no_drop)] #[kani::stub(core::ptr::drop_glue, no_glue)] #[kani::stub(alloc::fmt::format, fmt_marker)] fn $n() { wrap::<$k>() })* } }
+macro_rules! wr_h { ($($n:ident: $k:expr;)*) => { $(#[kani::proof] #[kani::unwind(4)] #[kani::stub(std::ptr::drop_in_place, no_drop)] #[kani::stub(core::ptr::drop_glue, no_glue)] #[kani::stub(std::vec::Vec::extend_from_slice, extend_from_slice_model)] #[kani::stub(alloc::fmt::format, fmt_marker)] fn $n() { wrap::<$k>() })* } }
 wr_h! { wrap_no_slots: 0; wrap_object_slots: 1; wrap_expr_slots: 2; }
